@@ -31,6 +31,9 @@ func (p *Path) nowMono() *Term {
 	}
 	p.assume(BVSle(lo, v))
 	p.assume(BVSlt(v, BVC(64, new(big.Int).Lsh(one, 61))))
+	if p.nowMax != nil {
+		p.assume(BVSle(v, p.nowMax))
+	}
 	p.lastNow = v
 	p.nowCount++
 	return v
